@@ -162,7 +162,6 @@ def execute(plan, tape):
     fs, f_range = band['fs'], tuple(band['f_range'])
     n0, n1 = plan['shape']
     sigs = _variant(np.array([[build_signal(s, band) for s in row] for row in plan['sigs']]), plan.get('array_variant'))
-    sigs0 = sigs.copy()
     axis = _axis(plan)
     akey = 'axis' + str(plan['axis'])
 
@@ -243,9 +242,6 @@ def execute(plan, tape):
             check_result(plan, res, out, refs, axis, n0, n1)
             if res.vclass is None and bg is not None:
                 check_models(res, bg, out, sigs, fs, f_range, n0, n1)
-            d = diff(sigs, sigs0)
-            if d and res.vclass is None:
-                res.violate('input-mutated', 'sigs', 'the caller\'s 3-D array was modified: ' + d)
 
     # ---- probes ----------------------------------------------------------------------
     if n0 != n1:
